@@ -48,6 +48,10 @@ def run(ctx, prop: str) -> None:
                 verdicts[tuple(map(str, vals))] = "invalid"
             except NotImplementedError:
                 verdicts[tuple(map(str, vals))] = "invalid?"  # not expected
+            except BaseException as ex:  # noqa: anything else escaping is neither a result nor the documented rejection
+                if isinstance(ex, (KeyboardInterrupt, SystemExit)):
+                    raise
+                verdicts[tuple(map(str, vals))] = f"raises {type(ex).__name__} ({str(ex)[:80]})"
         nontrivial.add(e)
         wrong = {k: v for k, v in verdicts.items() if v != "invalid"}
         if wrong and len(bad) < 5:
@@ -55,9 +59,15 @@ def run(ctx, prop: str) -> None:
             bad.append((e, k, wrong[k]))
         if prop == "C06":
             n += 1
-            ok, msg = asyncio.run(is_valid_expression(e, set_cer))
-            if (ok is not False or not isinstance(msg, str)) and len(bad) < 5:
-                bad.append((e, "is_valid_expression", f"returned ({ok!r}, {msg!r})"))
+            try:
+                ok, msg = asyncio.run(is_valid_expression(e, set_cer))
+                if (ok is not False or not isinstance(msg, str)) and len(bad) < 5:
+                    bad.append((e, "is_valid_expression", f"returned ({ok!r}, {msg!r})"))
+            except BaseException as ex:  # noqa: the validity check must answer (False, reason) for a well-formed expression
+                if isinstance(ex, (KeyboardInterrupt, SystemExit)):
+                    raise
+                if len(bad) < 5:
+                    bad.append((e, "is_valid_expression", f"raises {type(ex).__name__} ({str(ex)[:80]})"))
     if prop == "C16":
         from maus.models.edifact_components import DataElementFreeText, Segment
         from ahbicht.validation.validation import validate_segment
@@ -90,7 +100,10 @@ def run(ctx, prop: str) -> None:
     for i, (e, k, what) in enumerate(bad):
         ctx.violation(f"bounded/multi-part-invalid-{i}",
                       f"{e!r} is invalid (one part is) but under {k} it {what}: validity must not depend on condition states"
-                      if prop == "C06" else f"node with the invalid expression {e!r} under {k}: {what}",
+                      if prop == "C06" else (f"node with the invalid expression {e!r} under {k}: {what}" if "segment" in what
+                                             or "aborted" in what else
+                                             f"evaluating the invalid expression {e!r} under {k} {what} instead of raising "
+                                             f"the invalid-expression error validation relies on"),
                       witness={"expression": e, "assignment_or_call": k, "observed": what}, replayed=True,
                       signature=f"multipart|{e}|{k}",
                       replay_code=("import asyncio, logging; logging.disable(logging.CRITICAL)\n"
